@@ -2,3 +2,4 @@ pub mod pq;
 pub mod sched;
 pub mod sinks;
 pub mod synccell;
+pub mod task;
